@@ -77,7 +77,7 @@ func ruleCompactKeep() *Rule {
 		ID: "COMPACT-KEEP",
 		Text: "(*persistentLog).Compact(i) keeps entries[i-first:] (Slice low bound = index - entries[0].Index) and writes exactly those to the temporary file; DiscardEntries(i,t) leaves and writes exactly one entry {Index:i, Term:t}; " +
 			"LastIndex/LastTerm/NextIndex read element len-1 (NextIndex adds 1); Contains(index) is true exactly for first < index < first+len.",
-		Floor: 7,
+		Floor: 6,
 		Run: func(p *Program) []Obligation {
 			obs := newObSet("COMPACT-KEEP")
 			k := &keepCtx{p: p, entries: p.Field("persistentLog.entries"), indexFld: p.Field("LogEntry.Index"), termFld: p.Field("LogEntry.Term")}
